@@ -297,8 +297,13 @@ def main():
         extra = [(["cargo", "check", "--offline", "--examples"], "examples under default features (client_server)"),
                  (["cargo", "check", "--offline", "--example", "agility", "--all-features"], "example agility under its required features"),
                  (["cargo", "check", "--offline", "--example", "client_server", "--no-default-features", "--features", "x25519,alloc"], "example client_server under x25519,alloc")]
+        # the release profile (no debug assertions): code that only exists under cfg(debug_assertions) must not be needed there
+        extra.append((["cargo", "check", "--offline", "--release", "--lib"], "the library in the release profile, default features"))
+        extra.append((["cargo", "check", "--offline", "--release", "--lib", "--all-features"], "the library in the release profile, all features"))
+        extra.append((["cargo", "check", "--offline", "--release", "--lib", "--no-default-features", "--features", "x25519"], "the library in the release profile, x25519 only"))
+        extra.append((["cargo", "check", "--offline", "--benches", "--all-features"], "benches under all features"))
+        extra.append((["cargo", "check", "--offline", "--release", "--benches", "--all-features"], "benches under all features in the release profile (the profile they are run in)"))
         if tier == "thorough":
-            extra.append((["cargo", "check", "--offline", "--benches", "--all-features"], "benches under all features"))
             extra.append((["cargo", "test", "--offline", "--doc"], "doc tests under default features"))
         for cmd, what in extra:
             rc, out, err = run(cmd, REPO, x)
